@@ -81,7 +81,7 @@ Theorem C14_site_rewire_order_irrelevant : forall old new l l' g,
 Proof. exact site_rewire_order_irrelevant. Qed.
 Print Assumptions C14_site_rewire_order_irrelevant.
 
-(* S8 (remove_redundant_transpose_pairs_ir :1546): rewire + shape refresh in set order.
+(* S8 (remove_redundant_transpose_pairs_ir :1550): rewire + shape refresh in set order.
    The full-strength statement is FALSE of the faithful model ... *)
 Theorem C14_site_refresh_order_irrelevant_refuted :
   exists F l l' sh dom, Permutation l l' /\
